@@ -388,7 +388,12 @@ impl Ser {
         let tparams = TokenSerializeParameters { cdata_section_elements: cdata_ids.clone(), unescaped_gt };
         let sparams = Parameters { indentation: None, cdata_section_elements: cdata_ids.clone(), declaration: None, doctype: None, unescaped_gt };
         let pparams = Parameters { indentation: Some(Indentation { suppress: suppress_ids.clone() }), cdata_section_elements: cdata_ids.clone(), declaration: None, doctype: None, unescaped_gt };
-        let plain = match guard(|| xot.serialize_xml_string(sparams.clone(), target)) {
+        // one case in three runs every entry point with a normalizer that really changes text and attribute values
+        let with_norm = rng.chance(1, 3);
+        if with_norm {
+            ctx.count("cases_with_a_changing_normalizer");
+        }
+        let plain = match guard(|| if with_norm { xot.serialize_xml_string_with_normalizer(sparams.clone(), target, TestNormalizer) } else { xot.serialize_xml_string(sparams.clone(), target) }) {
             Ok(Ok(t)) => t,
             _ => {
                 ctx.count("not_serialisable_skipped");
@@ -398,13 +403,19 @@ impl Ser {
         // tokens
         match guard(|| {
             let mut s = String::new();
-            for (_n, _o, t) in xot.tokens(target, tparams.clone(), NoopNormalizer) {
+            let mut push = |t: xot::output::OutputToken| {
                 if t.space {
                     s.push(' ');
                 }
                 s.push_str(&t.text);
-                if s.len() > 10_000_000 {
-                    break;
+            };
+            if with_norm {
+                for (_n, _o, t) in xot.tokens(target, tparams.clone(), TestNormalizer) {
+                    push(t);
+                }
+            } else {
+                for (_n, _o, t) in xot.tokens(target, tparams.clone(), NoopNormalizer) {
+                    push(t);
                 }
             }
             s
@@ -420,13 +431,13 @@ impl Ser {
             }
         }
         // pretty tokens
-        let pretty = match guard(|| xot.serialize_xml_string(pparams.clone(), target)) {
+        let pretty = match guard(|| if with_norm { xot.serialize_xml_string_with_normalizer(pparams.clone(), target, TestNormalizer) } else { xot.serialize_xml_string(pparams.clone(), target) }) {
             Ok(Ok(t)) => t,
             _ => return,
         };
         match guard(|| {
             let mut s = String::new();
-            for (_n, _o, t) in xot.pretty_tokens(target, tparams.clone(), &suppress_ids, NoopNormalizer) {
+            let mut push = |t: xot::output::PrettyOutputToken| {
                 for _ in 0..t.indentation * 2 {
                     s.push(' ');
                 }
@@ -436,6 +447,15 @@ impl Ser {
                 s.push_str(&t.text);
                 if t.newline {
                     s.push('\n');
+                }
+            };
+            if with_norm {
+                for (_n, _o, t) in xot.pretty_tokens(target, tparams.clone(), &suppress_ids, TestNormalizer) {
+                    push(t);
+                }
+            } else {
+                for (_n, _o, t) in xot.pretty_tokens(target, tparams.clone(), &suppress_ids, NoopNormalizer) {
+                    push(t);
                 }
             }
             s
@@ -455,8 +475,8 @@ impl Ser {
             let want = if label == "plain" { &plain } else { &pretty };
             let mut v: Vec<u8> = Vec::new();
             let mut ob = OneByteWriter(Vec::new());
-            let r1 = guard(|| xot.serialize_xml_write(params.clone(), target, &mut v));
-            let r2 = guard(|| xot.serialize_xml_write(params.clone(), target, &mut ob));
+            let r1 = guard(|| if with_norm { xot.serialize_xml_write_with_normalizer(params.clone(), target, &mut v, TestNormalizer) } else { xot.serialize_xml_write(params.clone(), target, &mut v) });
+            let r2 = guard(|| if with_norm { xot.serialize_xml_write_with_normalizer(params.clone(), target, &mut ob, TestNormalizer) } else { xot.serialize_xml_write(params.clone(), target, &mut ob) });
             if !matches!(r1, Ok(Ok(()))) || !matches!(r2, Ok(Ok(()))) || v != want.as_bytes() || ob.0 != want.as_bytes() {
                 ctx.violation(
                     "Write-based serialisation emits other bytes than the string API",
@@ -667,13 +687,13 @@ impl Monitor for Ser {
     fn rule(&self) -> String {
         match self.0 {
             SW::C14 => "XML-representable trees (one in ten wrapped in 15-130 levels of unmixed nesting) with text concentrated on ']' / '>' runs, CR/LF/TAB, whitespace-only text, and xml:space in {preserve, default, other} at any depth x random subsets of the tree's element names as CDATA-section elements and as suppress list x unescaped_gt x declaration {none, plain, encoding + standalone} x indentation on/off, on documents, fragments and element subtrees: without indentation the reparse must be deep-equal; with indentation a whitespace diff must find only added whitespace-only text nodes, none inside mixed content, xml:space=preserve scope or a suppressed element. Non-trivial = tree >= 3 nodes; distinct by hash of (tree, parameters)".into(),
-            SW::C16 => "serialisable trees (one in eight wrapped in 15-130 levels of unmixed nesting, one in five with empty text nodes that only the API can create) and their element subtrees x {CDATA-section elements, unescaped_gt, suppress list}: concatenated tokens == string serialisation, pretty tokens with indentation / space / newline applied == pretty string, serialize_xml_write into a Vec and into a one-byte-per-call writer == string bytes, and outputs() == the per-node event sequence derived from the abstract tree and the scope model (top element's inherited bindings as a set). Non-trivial = tree >= 3 nodes; distinct by hash of (tree, parameters)".into(),
+            SW::C16 => "serialisable trees (one in eight wrapped in 15-130 levels of unmixed nesting, one in five with empty text nodes that only the API can create) and their element subtrees x {CDATA-section elements, unescaped_gt, suppress list} x {no normalizer, a normalizer that turns U+226E / U+FF06 / U+FB01 into other text}: concatenated tokens == string serialisation, pretty tokens with indentation / space / newline applied == pretty string, serialize_xml_write into a Vec and into a one-byte-per-call writer == string bytes, and outputs() == the per-node event sequence derived from the abstract tree and the scope model (top element's inherited bindings as a set). Non-trivial = tree >= 3 nodes; distinct by hash of (tree, parameters)".into(),
         }
     }
     fn floors(&self, _tier: Tier) -> Vec<(&'static str, u64)> {
         match self.0 {
             SW::C14 => vec![("reparsed_equal.plain", 10_000), ("reparsed_equal.indented", 10_000), ("whitespace_nodes_inserted", 10_000), ("with_cdata_section_elements", 5_000), ("with_declaration", 1_000), ("deep_chain_trees", 2_000)],
-            SW::C16 => vec![("tokens_equal_string", 10_000), ("pretty_tokens_equal_string", 10_000), ("writers_equal_string", 10_000), ("output_events_match", 10_000), ("deep_chain_trees", 2_000), ("trees_with_empty_text_nodes", 2_000)],
+            SW::C16 => vec![("tokens_equal_string", 10_000), ("pretty_tokens_equal_string", 10_000), ("writers_equal_string", 10_000), ("output_events_match", 10_000), ("deep_chain_trees", 2_000), ("trees_with_empty_text_nodes", 2_000), ("cases_with_a_changing_normalizer", 10_000)],
         }
     }
     fn assumptions(&self) -> Vec<String> {
